@@ -299,6 +299,8 @@ impl Model {
                     p.nontrivial = len > 0;
                     p.ev.push(Ev::Len(len));
                     p.ev.push(Ev::Bool(true));
+                    // the rebuilt vector reports the same drop and clone functions
+                    p.ev.push(Ev::Bool(true));
                 }
             }
             Op::Views => self.op_views(st, &mut p, caps),
@@ -518,7 +520,7 @@ impl Model {
         let mut sink = st.sink % SINK_KINDS;
         p.r.kind = kind;
         p.r.via = via;
-        p.r.form = st.form % 2; // operand order of the swap sink
+        p.r.form = st.form % 4; // bit 0: operand order of the swap sink; bit 1: raw-memory consumption
         let other = self.pick_other(slot, st.other as usize);
         if via == VIA_TYPED && !matches!(sink, SINK_DROP | SINK_DOWNCAST_KEEP) {
             sink = SINK_DROP;
